@@ -8,6 +8,7 @@ mod gen;
 mod opt;
 mod oracle;
 mod search;
+mod state;
 mod util;
 
 use std::fs::File;
